@@ -173,15 +173,17 @@ open Compress.Prefix Compress.Proofs.PrefixCodes Compress.Proofs.FlateRefine in
     table, looked up by `ReadSymbol`, finds the same code word. -/
 def TableSpec : Prop :=
   ∀ (cs : List Prefix.Code), 2 ≤ cs.length → Prefix.symsIncreasing cs = true → CodesOK cs →
+    (∀ c ∈ cs, c.sym < 2 ^ 27) →
     ∃ d, Impl.initDecoder cs true = .ok d ∧ ∀ r : Impl.BR,
       (∀ c ∈ canon cs, ∀ rest, r.bits = c.word ++ rest →
         Impl.readSymbol d r = (.ok c.sym, { bits := rest, used := r.used + c.len })) ∧
       ((∀ c ∈ canon cs, ¬ c.word <+: r.bits) → Impl.readSymbol d r = (.error .unexpectedEOF, r))
 
 /-- **(d), tables.** `prefixDecoder.Init` with `assignCodes` on at least two codes with increasing
-    symbols, lengths 1..15 and Kraft sum one builds a table that decodes the canonical code. -/
+    symbols, lengths 1..15 and Kraft sum one builds a table that decodes the canonical code.
+    (`n ≤ 2^27`: Init refuses symbols that do not fit the 27 symbol bits of a table entry.) -/
 def InitTreeRel : Prop :=
-  ∀ (codes : List Prefix.Code) (n : Nat), 2 ≤ codes.length → Prefix.symsIncreasing codes = true →
+  ∀ (codes : List Prefix.Code) (n : Nat), n ≤ 2 ^ 27 → 2 ≤ codes.length → Prefix.symsIncreasing codes = true →
     (∀ c ∈ codes, c.sym < n ∧ 1 ≤ c.len ∧ c.len ≤ 15) → kraft15 codes = 2 ^ 15 →
     ∃ d, Impl.initDecoder codes true = .ok d ∧ CodeRel n d (PrefixCode.ofLengths (lensArr n codes))
 
